@@ -57,23 +57,25 @@ var propRules = map[string]*PropSpec{
 		Technique:  techOwn,
 	},
 	"C03": {
-		Rules:       []string{"A1.api32", "A1.kernel", "F1", "F11", "G1", "F3.32", "F3.64", "A1.api64", "U6"},
+		Rules:       []string{"A1.api32", "A1.kernel", "F1", "F11", "G1", "F3.32", "F3.64", "A1.api64", "U6", "EQ1"},
 		Explanation: explBase + " C03: the clause 'queries never modify the bitmap' is decided for every exported read-only function; kind dispatch of the query paths is exhaustive.",
 		Decided: []string{
 			"queries use no package-level scratch memory",
 			"no mutator leaves an empty chunk/bucket behind (IsEmpty, Minimum, Maximum rely on it)",
 			"no exported query (cardinality, rank/select, extrema, Contains, Equals, ToArray, Checksum, Stats, iterators' constructors ...) changes the contents of its receiver or argument", "read-only container kernels never write receiver or operand", "type switches on the query paths handle all kinds", "no scalar query (Equals, Contains, Rank, cardinalities ...) reads the copy-on-write flags",
-			"the 64-bit bounds of CardinalityInRange/IntersectsWithInterval are cut to 32 bits only where they are bounded below 2^32 on every path"},
+			"the 64-bit bounds of CardinalityInRange/IntersectsWithInterval are cut to 32 bits only where they are bounded below 2^32 on every path",
+			"every comparison inside an equality routine (Equals/equals of bitmaps, tables and the three container kinds) has the receiver on one side and the argument on the other"},
 		NotDecided: []string{"every numeric result (rank, select, cardinalities, extrema)", "Checksum invariance under Clone / round trip", "AVX2 vs portable popcount"},
 		Technique:  techOwn,
 	},
 	"C04": {
-		Rules:       []string{"F7", "F1", "A1.api32", "F12", "U4"},
+		Rules:       []string{"F7", "F1", "A1.api32", "F12", "U4", "R2"},
 		Explanation: explBase + " C04: the early-termination clause and the purity of iteration are decided; kind dispatch in iterator init / Iterate / Ranges is exhaustive.",
 		Decided: []string{
 			"range-over-func sequences capture only parameters: each traversal creates its own iterator state",
 			"every callback invocation's stop answer is examined and, once false, the callback is never invoked again (Iterate, Values, Backward, Unset, Ranges, per-kind iterate)", "iterator init / Iterate / Ranges handle all three kinds", "iteration never changes the bitmap's contents",
-			"the word scan behind UnsetIterator/Unset and Ranges inverts the word before shifting it, or bounds the count taken on the shifted word"},
+			"the word scan behind UnsetIterator/Unset and Ranges inverts the word before shifting it, or bounds the count taken on the shifted word",
+			"Initialize of every reusable iterator assigns each cursor field (stepped by Next/Advance and consulted by the set-up code) on every path"},
 		NotDecided: []string{"order/completeness of the produced sequence", "AdvanceIfNeeded / PeekNext arithmetic", "unset-iterator gap handling beyond the word scan", "Ranges merging across chunks"},
 		Technique:  "static analysis: CFG reachability after the stop edge (go/ssa), AST type-switch exhaustiveness, ownership summaries",
 	},
@@ -224,9 +226,9 @@ var propRules = map[string]*PropSpec{
 		Technique:  techMix,
 	},
 	"C17": {
-		Rules:       []string{"A2.64", "A3.64", "F3.64", "F5", "F9", "A1.api64", "A5", "F12", "P6", "P2", "U1", "F10"},
+		Rules:       []string{"A2.64", "A3.64", "F3.64", "F5", "F9", "A1.api64", "A5", "F12", "P6", "P2", "U1", "F10", "EQ1", "R2"},
 		Explanation: explBase + " C17: the 64-bit bitmap's bucket table obeys the same ownership discipline (bucket = container), drops emptied buckets, inserts at the right index and its aggregates return fresh bitmaps.",
-		Decided:     []string{"every bucket write goes through an owned bucket (gate / fresh)", "every bucket store is owned / moved with its flag / cloned", "every may-empty bucket operation is followed by an emptiness test", "insertion index searched in the destination table (static Flip)", "FastOr/FastAnd/ParOr of one bitmap return a fresh bitmap", "read-only API never changes its arguments"},
+		Decided:     []string{"every bucket write goes through an owned bucket (gate / fresh)", "every bucket store is owned / moved with its flag / cloned", "every may-empty bucket operation is followed by an emptiness test", "insertion index searched in the destination table (static Flip)", "FastOr/FastAnd/ParOr of one bitmap return a fresh bitmap", "read-only API never changes its arguments", "in-place Xor tests rb == x2 before writing", "Equals compares receiver with argument on both key and bucket level", "Initialize rewinds every cursor field of the reusable 64-bit iterators"},
 		NotDecided:  []string{"per-bucket range splitting", "Rank/Select accumulation", "iterator arithmetic", "absence of panics in general"},
 		Technique:   techOwn,
 	},
@@ -242,7 +244,7 @@ var propRules = map[string]*PropSpec{
 		Technique:  techErr,
 	},
 	"C19": {
-		Rules:       []string{"PC1", "PC2", "B1", "P1", "A7", "U3", "A3.bsi", "A8", "P2", "A1.bsi", "F10.bsi", "ACC1"},
+		Rules:       []string{"PC1", "PC2", "B1", "P1", "A7", "U3", "A3.bsi", "A8", "P2", "A1.bsi", "F10.bsi", "ACC1", "SW1"},
 		Explanation: explBase + " C19: every whole-index operation touches every plane including the sign plane; (un)marshal errors propagate; per-plane goroutines are joined.",
 		Decided: []string{
 			"planes of the 32-bit index are freshly built bitmaps, never a caller's bitmap (Add/addDigit, ParOr, UnmarshalBinary, NewBSIRetainSet)",
@@ -254,14 +256,15 @@ var propRules = map[string]*PropSpec{
 		Technique:  "static analysis: loop-bound vs slice-length agreement over go/ssa; error-flow rules",
 	},
 	"C20": {
-		Rules:       []string{"A1.bsi", "P1", "U3", "A3.bsi", "P2", "U7"},
+		Rules:       []string{"A1.bsi", "P1", "U3", "A3.bsi", "P2", "U7", "SW1"},
 		Explanation: explBase + " C20: queries never change the index, returned bitmaps are never the index's internal bitmaps, fan-out goroutines are joined.",
 		Decided: []string{
 			"worker goroutines assign no captured variable; the shared task is read-only for them",
 			"comparison constants (*big.Int, task fields) are never overwritten by the functions that receive them",
 			"no query ignores one of its parameters (found-set, operator, bounds) apart from two named, justified cases",
 			"no BSI query changes the contents of the index's planes or existence bitmap", "no query returns a pointer to an internal bitmap (eBM / bA[i]) of the index", "parallel executors pair every goroutine with WaitGroup.Done",
-			"functions with an arbitrary-precision result (SumBigValues, GetBigValue(s), MinMaxBig) compute no plane weight in a machine word"},
+			"functions with an arbitrary-precision result (SumBigValues, GetBigValue(s), MinMaxBig) compute no plane weight in a machine word",
+			"no call crosses two same-typed arguments over the parameters they are named after (found-set / filter-set, start / end ...)"},
 		NotDecided: []string{"the comparison automaton", "trie/cube shortcuts", "sums and min/max beyond the width clause", "found-set restriction arithmetic"},
 		Technique:  techOwn,
 	},
